@@ -35,6 +35,9 @@ def finish_case(rng, segs, c):
     if len(segs) > 1 and r2.random() < 0.15:
         c["entry"] = "irun_chain"
         return c
+    if len(segs) > 1 and segs[0] > 0 and c["driver"] == "canonical" and r2.random() < 0.2:
+        c["entry"] = "irun_abandon"
+        return c
     if c["intervals"] and len(segs) > 1 and r2.random() < 0.35:
         # observer.interval is a public attribute: re-tuned between two run calls (log every step while equilibrating, every k-th afterwards)
         c["retune"] = {"seg": r2.randint(1, len(segs) - 1), "obs": r2.randrange(len(c["intervals"])), "interval": r2.choice([1, 2, 3, 5, -4, -8])}
